@@ -64,7 +64,7 @@ class C07(Check):
     prop_module = "PoxModel.Properties.C07"
     lean_targets = ["drv_c07"]
     driver = "drv_c07"
-    theorems = ["Pox.C07.ops_cover", "Pox.C07.sites_anchored", "Pox.C07.calllater_once", "Pox.C07.calllater_order",
+    theorems = ["Pox.C07.ops_cover", "Pox.C07.ops_accounted", "Pox.C07.sites_anchored", "Pox.C07.calllater_once", "Pox.C07.calllater_order",
                 "Pox.C07.sync_excludes", "Pox.C07.sync_mutual", "Pox.C07.schedule_atmost1_partial", "Pox.C07.schedule_self_twice", "Pox.C07.schedule_hub_race_defect", "Pox.C07.schedule_wake_kept",
                 "Pox.C07.schedule_st_never_lost", "Pox.C07.schedule_direct_kept", "Pox.C07.wake_never_lost", "Pox.C07.no_crash",
                 "Pox.C07.clt_alive", "Pox.C07.incoming_noticed_strict",
@@ -405,7 +405,7 @@ class C07(Check):
     def generate(self, rng, tier):
         n = 600 if tier == "quick" else 3000
         if getattr(self, "static_tie", {}).get("established") is False:
-            n += 900 if tier == "quick" else 3000            # no static tie: the verdict rests on the trace validation; make it wider
+            n += 600 if tier == "quick" else 3000            # no static tie: the verdict rests on the trace validation; make it wider
         for i in range(n):
             yield self.gen_threads_case(rng, big=(i % 10 == 9))
         if tier == "thorough":
@@ -825,6 +825,14 @@ class C07(Check):
         if status == "budget":
             # a run that does not end is the harness's fault (exit 2) — unless the model, asked about the same trace, says that
             # the code has left the protocol: then the code keeps taking steps the protocol does not have (a runaway)
+            if self.model_request2(case, obs) is None and (case.get("prio") or case.get("draws")):
+                # an oracle-only case (priorities < 1 are not in the model): judge the same programs and schedule with ordinary
+                # priorities, which the model can be asked about; if that run is fine the overrun cannot be judged (exit 2)
+                alt = {k: v for k, v in case.items() if k not in ("prio", "draws")}
+                aobs = self.run_threads(alt, want_choices=want_choices)
+                if not aobs.get("runaway"): raise Infra("step budget exceeded (%d steps) in a case the model does not cover" % ctl.steps)
+                aobs["substituted"] = "priorities dropped: the run with priorities exceeded the step budget"
+                return aobs
             at = self.budget_divergence(case, obs)
             if at is None: raise Infra("step budget exceeded (%d steps)" % ctl.steps)
             obs["runaway"] = at
@@ -1511,7 +1519,20 @@ class C07(Check):
                   "of that thread and enabled, and the run must end in the same observables (this ties ORDER and CONDITIONS); the real Lock is compared operation by operation with the model.  TESTED only (oracle on the real "
                   "runs): callbacks run exactly once on the scheduler thread in order, no duplicate in `ready`, no cooperative code inside a "
                   "foreign thread's section, no wake-up noticed only by time-out, quiescence reached without deadlock.")
-    level_note = ("Partial with respect to the runtime, and stated as such: the theorems are about the hand-written site-level model; that each "
+    level_note = ("HOW THE MODEL IS TIED TO THE CODE, exactly: the transition system of Model/Handoff.lean is tied to recoco.py by the DYNAMIC trace "
+                  "validation only — a correspondence on every executed case: each operation on a shared object must be the model's next "
+                  "action of that thread and be enabled, and the run must end in the same observables; ORDER, CONDITIONS, MULTIPLICITY and LOCK "
+                  "SCOPE of the operations are tied by it and by nothing else.  The static tie (ops_agree) is a coarse, flow-insensitive, "
+                  "reorder-insensitive FINGERPRINT — equality of a reviewed table with a regenerated per-entry-point SET of `op@role[locked]` "
+                  "elements: it detects operations on shared objects that appear, disappear, move to another object or in/out of a `with` "
+                  "body (incl. subscript stores), entry points that vanish, and new functions outside the entry points' call closure that "
+                  "touch the protocol's objects (row <unlisted>); it is blind to order, multiplicity, branch conditions and plain reads of "
+                  "shared attributes (len(_ready), `_callLaterTask is None`).  ops_cover (model action -> element of its function's set), "
+                  "ops_accounted (element -> model action or the commented `ignored` list) and sites_anchored are consistency statements "
+                  "about hand-written tables; nothing in Lean relates `siteOp s` to what `step` does at `s` — that relation is what the "
+                  "trace validation tests.  When ops_agree does not hold (evidence.static_tie) the verdict rests on the trace validation "
+                  "alone, on a widened case set.  "
+                  "Partial with respect to the runtime, and stated as such: the theorems are about the hand-written site-level model; that each "
                   "site is atomic rests on the GIL (C-level deque/Lock/Event/pipe operations are not interleaved); trace validation shows that "
                   "the real executions that were run are model executions, never the converse, and the schedules explored are bounded "
                   "(PCT/random for the seeded cases; in the thorough tier every schedule with <= 2 pre-emptions of the listed 1-3-thread "
@@ -1543,8 +1564,11 @@ class C07(Check):
             "release(l), yield} on 1-2 locks, 2-4 tasks, acquire's calling convention (aform: bool/int, positional/keyword, default); pinger "
             "case = ping/pongAll sequence; distinct = sha1 of the canonical case; non-trivial = the executed trace switches threads at least 4 "
             "times (threads) / some task had to wait (lock)")
-    trusted_base = ["Model/Handoff.lean, Model/CoopLock.lean, Model/HandoffSites.lean hand-written from recoco.py; tied by ops_agree/ops_cover + trace validation",
-                    "harness/translate/sites.py (decides which statements are listed) and harness/forcedthreads.py (forced scheduler, replaced primitives)",
+    trusted_base = ["Model/Handoff.lean, Model/CoopLock.lean, Model/HandoffSites.lean hand-written from recoco.py; tied to the code by the trace "
+                    "validation of every executed case (order, conditions, lock scope); ops_agree is a static drift detector only (set of "
+                    "op@role[locked] per entry point), ops_cover/ops_accounted/sites_anchored are table consistency",
+                    "harness/translate/sites.py (entry-point list FUNCTIONS, vocabulary SHARED_OPS, PROTOCOL_ROLES, role resolution) and "
+                    "harness/forcedthreads.py (forced scheduler, replaced primitives, instrumented deque)",
                     "mapping of operations on shared objects to model actions in harness/c07.py (SITE_CLASS: operation@role -> candidate actions; "
                     "the driver takes the candidate that is the model's next action of that thread; cl_isNone has no event of its own)"]
     assumptions = ["GIL: each modelled site (deque append/popleft/__contains__, attribute read/write, threading.Lock/Event operation, one-byte pipe "
